@@ -106,6 +106,8 @@ def wcmatch_vs_spec(item):
                     bad.append(('get_skipped-is-not-visited-minus-returned', f'{w.get_skipped()} vs {wskip}'))
                 if list(w.imatch()) != got:
                     bad.append(('imatch-differs-from-match', ''))
+                elif sorted(set(rel)) == want and w.get_skipped() != wskip:
+                    bad.append(('get_skipped-after-a-second-run-is-not-that-run\'s-visited-minus-returned', f'{w.get_skipped()} vs {wskip}'))
                 out.append(dict(base, bad=bad, n=len(got)))
             except CaseTimeout:
                 out.append(dict(base, bad=[('timeout', '')], n=0))
@@ -121,6 +123,7 @@ class _Rec(WM.WcMatch):
     def on_init(self, kill_at=None, raise_at=None, skip_value=None, error_value=None):
         self.log, self.kill_at, self.raise_at, self.step = [], kill_at, raise_at, 0
         self.skip_value, self.error_value, self.resets = skip_value, error_value, 0
+        self.rets = []
 
     def _tick(self, what, base, name):
         k = self.step
@@ -135,6 +138,21 @@ class _Rec(WM.WcMatch):
         self.resets += 1
         self.step = 0
         self.log = []
+        self.rets = []
+
+    def _ret(self, kind, base, name, value):
+        # value None -> None; ('RAW', v) -> v itself (falsy values 0, '', (), False must be passed through); else a tagged tuple
+        if value is None:
+            r = None
+        elif isinstance(value, tuple) and len(value) == 2 and value[0] == 'RAW':
+            r = value[1]
+        else:
+            r = (value, os.path.join(base, name))
+        self.rets.append((kind, r))
+        return r
+
+    def expected_yields(self):
+        return [v for kind, v in self.rets if kind == 'match' or v is not None]
 
     def on_validate_directory(self, base, name):
         self._tick('validate_dir', base, name)
@@ -146,15 +164,15 @@ class _Rec(WM.WcMatch):
 
     def on_match(self, base, name):
         self._tick('match', base, name)
-        return ('M', os.path.join(base, name))
+        return self._ret('match', base, name, 'M')
 
     def on_skip(self, base, name):
         self._tick('skip', base, name)
-        return None if self.skip_value is None else (self.skip_value, os.path.join(base, name))
+        return self._ret('skip', base, name, self.skip_value)
 
     def on_error(self, base, name):
         self._tick('error', base, name)
-        return None if self.error_value is None else (self.error_value, os.path.join(base, name))
+        return self._ret('error', base, name, self.error_value)
 
 
 def kill_points(item):
@@ -171,6 +189,8 @@ def kill_points(item):
                 n = len(log)
                 if ref.resets != 1:
                     bad.append(('on_reset-not-once-per-run', str(ref.resets)))
+                if full != ref.expected_yields():
+                    bad.append(('hook-values-not-passed-through-unchanged', f'{full[:4]} vs {ref.expected_yields()[:4]}'))
                 full2 = ref.match()
                 if full2 != full or ref.resets != 2:
                     bad.append(('second-run-differs-or-on_reset-count', f'{len(full2)} vs {len(full)}; resets={ref.resets}'))
@@ -193,9 +213,12 @@ def kill_points(item):
                             bad.append(('work-continues-after-kill', f'kill at hook #{k} {kw} {os.path.relpath(kp, t.root)}: then {[(a, os.path.relpath(b, t.root)) for a, b in later[:3]]}'))
                         if not w.is_aborted():
                             bad.append(('not-aborted-after-kill', f'k={k}'))
+                        before = w.resets
                         again = w.match()
                         if again != []:
                             bad.append(('killed-object-yields-without-reset', f'k={k}: {again[:2]}'))
+                        if w.resets != before + 1 or w.get_skipped() != 0:
+                            bad.append(('run-started-in-the-killed-state-does-not-call-on_reset-once-or-restart-the-skipped-counter', f'k={k}: resets {before}->{w.resets}, skipped={w.get_skipped()}'))
                         w.reset()
                         w.kill_at = None
                         if w.match() != full:
@@ -206,6 +229,8 @@ def kill_points(item):
                         continue
                     w = _Rec(t.root, pattern, flags=flags, raise_at=r, skip_value=skip_value, error_value=error_value)
                     res = w.match()
+                    if res != w.expected_yields():
+                        bad.append(('hook-values-not-passed-through-unchanged', f'r={r}: {res[:4]} vs {w.expected_yields()[:4]}'))
                     errs = [p for a, p in w.log if a == 'error']
                     if errs != [log[r][1]]:
                         bad.append(('on_error-not-exactly-for-the-raising-entry', f'r={r}: {errs}'))
@@ -266,6 +291,12 @@ def pathlib_views(item):
                     want_rg = [str(x) for x in r.glob(txt, flags=flags | W._EXTMATCHBASE)]
                     if rg != want_rg:
                         bad.append(('rglob-is-not-glob-with-implicit-recursive-segment', f'{rg[:5]} vs {want_rg[:5]}'))
+                    # independent formulation: the implicit recursive segment written out (`**/p`, or `***/p` under GLOBSTARLONG|FOLLOW)
+                    if flags & (PL.G | PL.GL) and not flags & PL.N and not any(ch in txt for ch in '|{') and not txt.startswith(('/', '~')):
+                        pre = '***/' if (flags & PL.GL and flags & PL.L) else '**/'
+                        written = {str(x) for x in r.glob(pre + txt, flags=flags)}
+                        if set(rg) != written:
+                            bad.append(('rglob(p)-differs-from-glob(**/p)', f'only rglob: {sorted(set(rg) - written)[:4]} only glob(**/p): {sorted(written - set(rg))[:4]}'))
                     # user-supplied FORCEWIN / FORCEUNIX are ignored
                     if [str(x) for x in r.glob(txt, flags=flags | G.W)] != got or [str(x) for x in r.glob(txt, flags=flags | G.U)] != got:
                         bad.append(('user-FORCEWIN/FORCEUNIX-not-ignored', ''))
